@@ -493,6 +493,40 @@ def check(prog, rep):
                    if not later_fill and not empty else
                    f"published as {src(val)[:40]} and filled afterwards (line {later_fill[0].lineno if later_fill else n.lineno}): an exception in between leaves a partial cache that the next solve trusts",
                    loc=f"{fi.module.rel}:{n.lineno}", detail="publish-complete")
+    # a verdict written before it is known: `P.a = <provisional>` ... work that can raise ... `P.a = <final>` in one
+    # function.  An exception in between leaves the provisional value in the cache, and the next solve trusts it.
+    for a in sorted(pm.cache_attrs):
+        by_fn = {}
+        for fi, n in pm.assigned_outside.get(a, []):
+            if isinstance(n, ast.Assign):
+                by_fn.setdefault(fi.qual, (fi, []))[1].append(n)
+        for fi, ns in by_fn.values():
+            for n1 in ns:
+                if isinstance(n1.value, ast.Constant) and n1.value.value is None:
+                    continue            # the "not known yet" value the invalidator also writes
+                blk = None
+                par_ = getattr(n1, "_parent", None)
+                for field in ("body", "orelse", "finalbody"):
+                    lst = getattr(par_, field, None)
+                    if isinstance(lst, list) and any(n1 is x for x in lst):
+                        blk = lst
+                if blk is None:
+                    continue
+                i = next(k for k, x in enumerate(blk) if x is n1)
+                between = []
+                for st in blk[i + 1:]:
+                    later = [n2 for n2 in ns if n2 is not n1 and any(n2 is y for y in ast.walk(st))]
+                    risky = [y for y in ast.walk(st) if isinstance(y, ast.Call) and not any(y is z for n2 in later for z in ast.walk(n2)) and (dotted(y.func) or "") not in ("len", "isinstance", "id", "type")]
+                    if later and (between or [y for y in risky if y.lineno < later[0].lineno]):
+                        call_ = (between or risky)[0]
+                        rep.ob("R20.4", f"{fi.qual.split(':')[1]}:Problem.{a}", False,
+                               f"Problem.{a} is set to {src(n1.value)[:30]} at line {n1.lineno} before the answer is known and corrected at line {later[0].lineno}; `{src(call_)[:40]}` (line {call_.lineno}) runs in between: "
+                               f"if it raises, the provisional value stays in the cache and the next solve of the same problem takes it for the computed one",
+                               loc=f"{fi.module.rel}:{n1.lineno}", detail="provisional-publish", robust=True)
+                        break
+                    if later:
+                        break
+                    between += risky
     from .common import cache_inplace_mutations
     muts = cache_inplace_mutations(prog, pm)
     for f, n, what in muts:
